@@ -13,6 +13,8 @@ import PrologVerif.Driver.C07
 import PrologVerif.Driver.C12
 import PrologVerif.Driver.C15
 import PrologVerif.Driver.C16
+import PrologVerif.Driver.C09
+import PrologVerif.Driver.C20
 open PrologVerif PrologVerif.Driver
 
 def handlers : List (String × Handler) :=
@@ -40,7 +42,10 @@ def handlers : List (String × Handler) :=
     ("c15.args", C15.argsHandler),
     ("c15.scan", C15.scanHandler),
     ("c15.ops", C15.opsHandler),
-    ("c16.rel", C16.handler) ]
+    ("c16.rel", C16.handler),
+    ("c09.hist", C09.handler),
+    ("c09.hist.pinned", C09.handlerPinned),
+    ("c20.load", C20.handler) ]
 
 partial def loop (h : IO.FS.Stream) (out : IO.FS.Stream) (f : Handler) : IO Unit := do
   let line ← h.getLine
